@@ -29,6 +29,10 @@ pub struct Registry {
     /// number of live handles that can reach the items
     pub live_handles: AtomicI64,
     pub early_drops: AtomicU32,
+    /// armed by a scenario: the destructor of this item panics (once), after all of its bookkeeping
+    pub panic_on_drop: Vec<AtomicBool>,
+    /// ids that may legitimately never be dropped: items behind a destructor that unwound out of the vector's teardown
+    pub leak_ok: Vec<AtomicBool>,
 }
 
 impl Registry {
@@ -41,6 +45,8 @@ impl Registry {
             double_drop: AtomicU32::new(0),
             live_handles: AtomicI64::new(0),
             early_drops: AtomicU32::new(0),
+            panic_on_drop: (0..cap).map(|_| AtomicBool::new(false)).collect(),
+            leak_ok: (0..cap).map(|_| AtomicBool::new(false)).collect(),
         })
     }
 }
@@ -80,8 +86,14 @@ impl Drop for Tracked {
         }
         // poison so that a use after drop is recognisable
         unsafe { std::ptr::write_volatile(&mut self.canary, 0xDEAD_DEAD_DEAD_DEAD) };
+        if self.reg.panic_on_drop[self.id as usize].swap(false, Ordering::Relaxed) && !std::thread::panicking() {
+            panic!("{}", DROP_PANIC);
+        }
     }
 }
+
+/// message of the panic raised by an armed destructor (the monitor catches it itself)
+pub const DROP_PANIC: &str = "user item destructor panics (armed by the monitor)";
 
 /// matcher columns are a pure function of the id so that any reader can verify completeness
 pub fn col_text(id: u32, col: usize) -> String {
